@@ -54,7 +54,8 @@ Fixpoint cinf2 (s : RS2) : Prop :=
   end.
 Fixpoint cinf3 (s : RS3) : Prop :=
   match s with
-  | Sphere _ | Box3D _ _ | Cylinder _ _ _ => True
+  | Sphere _ | Box3D _ _ | Cylinder _ _ _ | Cone _ _ _ _ => True
+  | Revolve s theta => (cinf2 s \/ cl2_2 s) /\ Rfmod (Rabs theta) (@tau ROps) = 0   (* full revolutions only *)
   | Extrude s _ | ExtrudeRounded s _ _ => cinf2 s \/ cl2_2 s
   | Loft s0 s1 _ _ => (cinf2 s0 \/ cl2_2 s0) /\ (cinf2 s1 \/ cl2_2 s1)
   | Intersect3 _ s0 _ | Difference3 _ s0 _ => cinf3 s0
@@ -263,9 +264,10 @@ Proof.
     + clear main2 main3. split; [eapply sphere_enc, H | split; intros _; [apply lb2_lbinf3|]; eapply sphere_lb2, H].
     + clear main2 main3. split; [eapply box3_enc, H | split; intros _; [eapply box3_lbinf, H | eapply box3_lb2, H]].
     + clear main2 main3. split; [eapply cylinder_enc, H | split; intros _; [eapply cylinder_lbinf, H | eapply cylinder_lb2, H]].
-    + clear main2 main3. destruct W as [H0 H1]. apply enc_only3. exact (cone_enc _ _ _ _ _ H0 H1 H).
+    + clear main2 main3. destruct W as [H0 H1]. apply inf_only3. exact (cone_lbinf _ _ _ _ _ H0 H1 H).
     + ob H. pose proof (main2 s o1 W Hb) as I. clear main2 main3.
-      apply enc_only3. eapply revolve_enc; [exact H | apply I].
+      split; [eapply revolve_enc; [exact H | apply I] | split; [|intros []]].
+      intros [c Hth]. eapply revolve_full_lbinf; [exact Hth | exact H | eapply inv2_lbinf; eassumption].
     + destruct W as (W & Hh). ob H. pose proof (main2 s o1 W Hb) as I. clear main2 main3.
       split; [eapply extrude_enc; [exact Hh | exact H | apply I] | split; [|intros []]].
       intros c. eapply extrude_lbinf; [exact Hh | exact H | eapply inv2_lbinf; eassumption].
